@@ -51,7 +51,7 @@ class GramWorld:
 		self.regexps = gen_rules.regexps_of(self.rules)
 
 	def parse(self, text: str) -> tuple[str, Any, list[Any]]:
-		tokens = self.tokenizer.parse(text)
+		tokens = gramlib.real_tokens(self.tokenizer, text)
 		kind, payload = gramlib.real_parse(self.rules, gramlib.FixedTokenizer(tokens), text)
 		return kind, payload, tokens
 
@@ -59,7 +59,8 @@ class GramWorld:
 def real_from_ast(tree: Any) -> tuple[str, Any]:
 	from rogw.tranp.implements.syntax.tranp.rule import Rules
 	try:
-		return 'ok', Rules.from_ast(tree)
+		with gramlib.budget(gramlib.CALL_BUDGET_S):
+			return 'ok', Rules.from_ast(tree)
 	except Exception as e:  # noqa: BLE001
 		return exc_enum(e), None
 
@@ -75,8 +76,9 @@ def ast_tree_of(t: Any) -> Any:
 
 def real_render(tree: Any, stem: str) -> str:
 	from rogw.tranp.bin.gram_check import App, Args
-	app = App(Args(['-o', f'some/dir/{stem}.py']))
-	return app.render_rules(tree)
+	with gramlib.budget(gramlib.CALL_BUDGET_S):
+		app = App(Args(['-o', f'some/dir/{stem}.py']))
+		return app.render_rules(tree)
 
 
 def has_bare_group(p: Any) -> bool:
@@ -132,7 +134,10 @@ def stream_rules_ast(ctx: Ctx) -> Stream:
 			if rng.random() < 0.2:
 				t = gen.malform(t)
 		trees.append((kind, t))
+	dl = gramlib.Deadline(ctx.scale(90, 600))
 	for kind, t in trees:
+		if dl.expired():
+			break
 		ops, real = [], []
 		sx = gramlib.tentry_sexp(t)
 		k, rules = real_from_ast(t)
@@ -206,7 +211,10 @@ def stream_rules_text(ctx: Ctx) -> Stream:
 		except Exception:  # noqa: BLE001
 			ok = False
 		cases.append(({'kind': f'textrt-{func}', 'outcome': 'ok'}, [f'textrt\t{gramlib.tentry_sexp(lit)}'], ['ok ' + ('true' if ok else 'false')]))
+	dl = gramlib.Deadline(ctx.scale(90, 600))
 	for kind, text, tree in texts:
+		if dl.expired():
+			break
 		try:
 			k, payload, tokens = world.parse(text)
 		except Exception:  # noqa: BLE001 - the lexer refuses the text: the model must refuse it too
@@ -304,7 +312,11 @@ def search_round_trip(ctx: Ctx) -> SearchResult:
 						trees.append(_tuplify(t))
 	for i in range(ctx.scale(600, 7000)):
 		trees.append(gen.grammar(rng.randint(1, 6), rng.randint(0, 3), bare_groups=rng.random() < 0.12))
+	dl = gramlib.Deadline(ctx.scale(120, 900))
 	for t in trees:
+		if dl.expired():
+			res.note = f'stopped early: wall budget {dl.seconds} s over'
+			break
 		k, rules = real_from_ast(t)
 		if k != 'ok':
 			hist['not-a-rule-set'] += 1
@@ -370,7 +382,11 @@ def search_render_import(ctx: Ctx) -> SearchResult:
 	gen = gramlib.RuleGen(rng, strings=[v for v in gramlib.STRING_TERMINALS if ok_val(v)] + extra_s, regexps=[v for v in gramlib.REGEXP_TERMINALS if ok_val(v)] + extra_r)
 	world = GramWorld()
 	seen: set[str] = set()
+	dl = gramlib.Deadline(ctx.scale(90, 600))
 	for i in range(ctx.scale(220, 2500)):
+		if dl.expired():
+			res.note = f'stopped early: wall budget {dl.seconds} s over'
+			break
 		t = gen.grammar(rng.randint(1, 4), rng.randint(0, 2), bare_groups=rng.random() < 0.2)
 		stem = rng.choice(['gen_rules', 'x_rules', 'py_rules'])
 		variants: list[tuple[str, Any]] = [('tree', None)]
@@ -391,7 +407,8 @@ def search_render_import(ctx: Ctx) -> SearchResult:
 						hist['printout:outside-domain'] += 1
 						continue
 					from rogw.tranp.implements.syntax.tranp.syntax import SyntaxParser
-					ast_tree = SyntaxParser(world.rules, world.tokenizer).parse(printout, 'entry')
+					with gramlib.budget(gramlib.CALL_BUDGET_S):
+						ast_tree = SyntaxParser(world.rules, world.tokenizer).parse(printout, 'entry')
 				text = real_render(ast_tree, stem)
 				ns: dict[str, Any] = {}
 				exec(compile(text, f'<generated {stem}.py>', 'exec'), ns)  # noqa: S102 - the module gram_check would write
@@ -452,7 +469,8 @@ def search_fixed_points(ctx: Ctx) -> SearchResult:
 	def compile_lark(name: str) -> Any:
 		from rogw.tranp.implements.syntax.tranp.syntax import SyntaxParser
 		if name not in compiled:
-			compiled[name] = SyntaxParser(world.rules, world.tokenizer).parse(read(name), 'entry')
+			with gramlib.budget(30):
+				compiled[name] = SyntaxParser(world.rules, world.tokenizer).parse(read(name), 'entry')
 		return compiled[name]
 
 	def fixed_gram() -> str | None:
@@ -525,7 +543,10 @@ def search_fixed_points(ctx: Ctx) -> SearchResult:
 		mt, _ = gramlib.mutate_tokens(toks, rng, pw.vocabulary)
 		if c11.paren_depth(mt) <= 4:
 			texts.append(gramlib.render_tokens(mt, rng, 0.3))
+	dl = gramlib.Deadline(ctx.scale(120, 900))
 	for text in texts:
+		if dl.expired():
+			break
 		def same(text: str = text) -> str | None:
 			try:
 				tokens = tk.parse(text)
@@ -547,7 +568,7 @@ def search_fixed_points(ctx: Ctx) -> SearchResult:
 
 		def same_g(text: str = text) -> str | None:
 			try:
-				tokens = world.tokenizer.parse(text)
+				tokens = gramlib.real_tokens(world.tokenizer, text)
 			except Exception:  # noqa: BLE001
 				return None
 			a = gramlib.real_parse(gram_direct, gramlib.FixedTokenizer(tokens), text)
